@@ -10,7 +10,8 @@ Solver-enumerated: chart, events (including an empty step).  Oracle: a twin inte
 ignore_contract=True (same guard bits) yields the exit/action/entry skeleton of each macro step; the
 expected probe sequence is that skeleton expanded with the documented check points; the checked run must
 follow it exactly up to the first false occurrence, raise the error class of that kind carrying that
-object and that condition, and run nothing afterwards.
+object and that condition, and run nothing afterwards.  A further level uses condition texts that coincide
+with entry/exit/action code texts (either used first): the verdict depends on the condition's value only.
 """
 import collections
 
